@@ -42,6 +42,7 @@ fn main() {
     let target = std::env::var("TARGET").unwrap();
 
     println!("cargo::rustc-check-cfg=cfg(atomic64, atomic32)");
+    println!("cargo::rustc-check-cfg=cfg(minicbor_verif)");
 
     if ATOMIC64.iter().any(|a| target.starts_with(a)) {
         println!("cargo::rustc-cfg=atomic64");
